@@ -6,6 +6,7 @@ pub mod c02;
 pub mod c03;
 pub mod crash;
 pub mod c05;
+pub mod c11;
 
 use crate::runner::Monitor;
 
@@ -15,6 +16,7 @@ pub fn by_id(id: &str) -> Option<Box<dyn Monitor>> {
         "C02" => Some(Box::new(c02::C02)),
         "C03" => Some(Box::new(c03::C03)),
         "C05" => Some(Box::new(c05::C05)),
+        "C11" => Some(Box::new(c11::C11)),
         _ => None,
     }
 }
